@@ -8,6 +8,7 @@ DIR=$(cd "$(dirname "$0")/.." && pwd)
 if [ ! -d "$WT" ]; then git -C /repo worktree add -q --detach "$WT" HEAD; fi
 git -C "$WT" checkout -q --detach "$(git -C /repo rev-parse HEAD)" 2>/dev/null
 git -C "$WT" checkout -- . && git -C "$WT" clean -fdq
+cp /repo/src/stationeers_pytrapic/_version.py "$WT/src/stationeers_pytrapic/_version.py"
 git -C "$WT" apply "$PATCH" || { echo "patch does not apply"; exit 2; }
 NAME=$(echo "$PATCH" | tr '/' '_')
 for ID in "$@"; do
